@@ -299,6 +299,22 @@ Proof.
   { apply map_ext. intros v. rewrite gdivR by exact Hs. field. exact Hs. }
   rewrite M, pvar_affine by exact Hc. rewrite <- E. field. exact Hs.
 Qed.
+(* center=False: dividing by the sd alone already gives unit variance (the variance ignores the offset) *)
+Theorem standardize_nc_col_unit_variance c sd : c <> [] -> sd <> 0 -> sd * sd = pvarR c ->
+  pvarR (map (fun v => gdiv opsR v sd) c) = 1.
+Proof.
+  intros Hc Hs E.
+  assert (M : map (fun v => gdiv opsR v sd) c = map (fun v => (/ sd) * v + 0) c).
+  { apply map_ext. intros v. rewrite gdivR by exact Hs. field. exact Hs. }
+  rewrite M, pvar_affine by exact Hc. rewrite <- E. field. exact Hs.
+Qed.
+Theorem standardize_nc_entry sds X i j : (i < length X)%nat -> (j < length sds)%nat -> (j < length (nth i X []))%nat ->
+  ent (standardize_nc opsR sds X) i j = gdiv opsR (ent X i j) (nth j sds 0).
+Proof.
+  intros Hi Hj Hr. unfold ent, standardize_nc.
+  rewrite (nth_map_in _ X i [] []) by exact Hi.
+  rewrite (nth_map2 _ _ _ j 0 0 0) by lia. reflexivity.
+Qed.
 Theorem standardize_col_zero_variance c : map (fun v => gdiv opsR (v - avgR c) 0) c = map (fun _ => 0) c.
 Proof. apply map_ext. intros v. apply gdivR0. Qed.
 
